@@ -170,6 +170,21 @@ def _only_illegal_possible(entries: list) -> bool:
     return False
 
 
+def _dedup_form_overlong(ids: list) -> bool:
+    """ a duplicated id X together with an over-long id whose shortened form would be X's de-duplicated form X_<n>:
+        a versioned X_<n>.<v>, or an id starting with the 12 characters of X (fallback <first 12>_<n>) """
+    clean = [strip_illegal(i) for i in ids]
+    duplicated = {i for i in clean if clean.count(i) > 1}
+    for identifier in clean:
+        if len(identifier) <= MAX_LEN:
+            continue
+        head = identifier.partition(".")[0]
+        for dup in duplicated:
+            if re.fullmatch(re.escape(dup) + r"_\d+", head) or (len(dup) == 12 and identifier[:12] == dup):
+                return True
+    return False
+
+
 def _record_classes(spec: dict, results, rejected: bool) -> list:
     entries = spec["records"]
     ids = [entry["id"] for entry in entries]
@@ -195,6 +210,8 @@ def _record_classes(spec: dict, results, rejected: bool) -> list:
         classes.append("in_contig_number_6plus_digits")
     if any(re.fullmatch(r"c\d{5}_.{0,7}\.\.", i) for i in ids):
         classes.append("in_looks_shortened")
+    if _dedup_form_overlong(ids):
+        classes.append("in_dedup_form_made_overlong")
     if rejected:
         classes.append("out_rejected_no_name")
     if results is not None:
@@ -649,7 +666,31 @@ def id_list_specs(draw, emphasis: str = "collide"):
     ids: list = []
     for _ in range(count):
         ids.append(draw(_new_id(ids, stems, emphasis, dirty, big)))
-    ids = draw(st.permutations(ids))
+    # 1 case in 3: a duplicated id X plus an over-long id whose shortened form is X's de-duplicated form X_<n>
+    # (versioned accession X_<n>.<v>, or first-12-characters fallback when the cNNNNN_ form is taken)
+    blocker_for = None
+    if draw(st.integers(0, 2)) == 0:
+        source = strip_illegal(draw(st.sampled_from(ids + stems))).replace(".", "x").partition("_")[0]
+        shape = draw(st.sampled_from(["versioned", "versioned", "fallback_contig", "fallback_index"]))
+        copies = draw(st.sampled_from([2, 2, 3]))
+        if shape == "versioned":
+            dup = (source + "q" * 14)[:draw(st.sampled_from([13, 14]))]
+            number = draw(st.integers(0, copies - 2))
+            ids += [dup] * copies + [f"{dup}_{number}.{draw(st.sampled_from('129'))}"]
+        else:
+            dup = (source + "q" * 12)[:12]
+            if shape == "fallback_contig":
+                number = draw(st.integers(0, 99999))
+                long_id = f"{dup}{draw(st.sampled_from(['.', '-']))}contig{number}"
+                long_id += draw(st.sampled_from(["", "-" + draw(_safe_text(1, 5))]))
+                ids += [dup] * copies + [long_id, f"c{number:05d}_{dup[:7]}.."]
+            else:
+                long_id = dup + draw(st.text(alphabet="abcxyz019", min_size=5, max_size=12))
+                ids += [dup] * copies + [long_id]
+                blocker_for = long_id
+    ids = list(draw(st.permutations(ids)))
+    if blocker_for is not None:      # the literal cNNNNN_ form of that id at its final position, appended last
+        ids.append(f"c{ids.index(blocker_for) + 1:05d}_{blocker_for[:7]}..")
     records = []
     for identifier in ids:
         name_kind = draw(st.sampled_from(["same", "same", "same", "locus", "other_id", "contig", "illegal"]))
@@ -668,14 +709,18 @@ def id_list_specs(draw, emphasis: str = "collide"):
 
 
 def enum_record_lists(with_quadruples: bool = False):
-    """ all ordered lists of 1-3 ids from a small pool of mutually colliding forms, both settings
-        (thorough: also all ordered lists of 4 from a pool of 9) """
+    """ all ordered lists of 1-3 ids from a pool of 19 mutually colliding forms, both settings; all ordered lists
+        of 4 from a focused pool of 8 (long headers refused); thorough: also all 4-lists from a pool of 10 """
     pool = ["ab", "a:b", "a b", "ab_0", "a:b_0", ":",
             "abcdefghijklmnopq", "abcdefghijklmnopr", "abcdefg:hijklmnopq", "abcdefghijkl_0", "c00001_abcdefg..",
             "c00002_abcdefg..", "NZ_AMZN01000079.1", "NZ_AMZN01000079", "NZ_AMZN:01000079.1",
-            "abcdefghij_contig2-x", "abcdefghij_contig2-y"]
+            "abcdefghij_contig2-x", "abcdefghij_contig2-y",
+            "abcdefghijklmn", "abcdefghijklmn_0.1"]      # X twice + X_0.1: the de-duplicated form made over-long
     small = ["x", "x_0", "x_0_0", "x:", "abcdefghijklmnopq", "abcdefghijkl_0", "abcdefghijkl_1", "c00001_abcdefg..",
-             "c00004_abcdefg.."]
+             "c00004_abcdefg..", "abcdefghijkl"]
+    # quick and thorough: all 4-lists (long headers refused) around "X twice, over-long X..., its cNNNNN_ form taken"
+    focused = ["abcdefghijkl", "abcdefghijkl.contig7", "c00007_abcdefg..", "abcdefghijkl_0", "abcdefghijklmnopq",
+               "c00003_abcdefg..", "abcdefghijklmn", "abcdefghijklmn_1.1"]
 
     def cases():
         for allow_long in (False, True):
@@ -687,8 +732,10 @@ def enum_record_lists(with_quadruples: bool = False):
                     for third in pool:
                         yield {"records": [{"id": i, "name": i} for i in (first, second, third)],
                                "long": allow_long}
+        import itertools
+        for combo in itertools.product(focused, repeat=4):
+            yield {"records": [{"id": i, "name": i} for i in combo], "long": False}
         if with_quadruples:
-            import itertools
             for allow_long in (False, True):
                 for combo in itertools.product(small, repeat=4):
                     yield {"records": [{"id": i, "name": i} for i in combo], "long": allow_long}
